@@ -57,7 +57,19 @@ pub fn gen_c02(tier: Tier, seed: u64) -> Case {
     } as usize;
     let init = g.r.range(1, n_names as u64) as usize;
     let mut program = g.create_initial(init);
+    // one run in twelve starts with a dozen journal files on disk (ids with one and two digits)
+    let many = n_names >= 2 && g.r.chance(1, 30);
+    if many {
+        program = g.create_initial(2);
+        let pre = g.many_journals(0, 1);
+        program.extend(pre);
+    }
     program.extend(g.program(n_ops, &mix));
+    if many && !program.iter().skip(30).any(|o| matches!(o, Op::Reopen)) {
+        program.push(Op::Reopen);
+        let v = g.val();
+        program.push(Op::Insert { ks: 1, key: g.key(), val: v });
+    }
     // a class that seals and evicts journals: crash points inside journal rotation, flush of
     // recovered memtables and journal deletion
     if g.r.chance(1, 3) {
@@ -84,7 +96,7 @@ pub fn gen_c02(tier: Tier, seed: u64) -> Case {
         program.extend(tail);
     }
     let torn = g.r.chance(2, 3);
-    let class = format!("{}maint{}{}", if torn { "torn-" } else { "" }, dens, if g.cfg.rotation_threshold > 0 { "+jrot" } else { "" });
+    let class = format!("{}maint{}{}{}", if torn { "torn-" } else { "" }, dens, if g.cfg.rotation_threshold > 0 { "+jrot" } else { "" }, if many { "+many-journals" } else { "" });
     mk_case("C02", seed, &g, program, Fault::Crash { points: None, torn, nested: false }, class)
 }
 
@@ -375,7 +387,8 @@ impl SnapCheck<'_> {
                     return Err(Violation::new(clause, format!("{}: writing to / reopening the recovered directory fails: {e}", s.desc)));
                 }
                 Err(_) => {
-                    return Err(Violation::new(clause, format!("{}: writing to / reopening the recovered directory panics", s.desc)));
+                    let (loc, msg) = crate::LAST_PANIC.lock().unwrap().clone().unwrap_or_default();
+                    return Err(Violation::new(clause, format!("{}: writing to / reopening the recovered directory panics at {loc}: {msg}", s.desc)));
                 }
             }
         }
